@@ -24,11 +24,20 @@ CID = "C03"
 VO = ["props/C03.vo"] + R.VO_MODEL
 S_ADDRAW, S_YEARDAY, S_NLYEARDAY = 27, 25, 26
 # relativedelta.py: keyword branch of __init__ incl. yearday table, _fix, __add__ on a date, __radd__/__rsub__, __neg__
-ANCHOR_RANGES = [(170, 229), (231, 262), (362, 408), (457, 473)]
+ANCHOR_RANGES = [(170, 230), (232, 263), (363, 409), (458, 474)]
 SPEC_N_LIMIT = 2000          # the counting spec walks 7*|n| days: only evaluated for |n| <= this
 
 
-MATCHERS = {}     # no open finding (F-C03-yearday366 was fixed in /repo by f29aa05; its input stays in the corpus)
+def m_zero_absolute(payload):
+    """F-C03-zero-absolute: an absolute year / month / day equal to 0 is silently ignored (`self.year or
+    other.year`) instead of being applied or rejected"""
+    d = payload.get("delta") or [None, [None] * 7]
+    return (payload.get("kind", "").startswith("absolute year/month/day = 0")
+            and any(v == 0 for v in list(d[1])[:3]))
+
+
+# F-C03-yearday366 was fixed in /repo by f29aa05 (its input stays in the corpus)
+MATCHERS = {"m_zero_absolute": m_zero_absolute}
 
 # ------------------------------------------------------------------ implementation side
 
@@ -301,6 +310,18 @@ def run_batch(cases, oracle, want_samples=0):
                 diffs.append(({"kind": "dt + delta differs from the documented replace/shift/clip/duration/weekday result",
                                "input": inp(item, "add"), "delta": item["proj"], "impl": item["r_add"],
                                "spec": spec}, True))
+        # outside the guard ONLY because an absolute year/month/day is 0 (finding F-C03-zero-absolute): the
+        # documented replacement is what the spec computes (no result, or December of the previous year)
+        pabs, pw = item["proj"][1], item["proj"][2]
+        if (not wf and spec is not None and any(v == 0 for v in pabs[:3])
+                and (pabs[1] is None or 0 <= pabs[1] <= 12) and (pw is None or 0 <= pw[0] <= 6)):
+            cnt["zero_absolute_compared"] = cnt.get("zero_absolute_compared", 0) + 1
+            if collapse(item["r_add"]) != spec:
+                cnt["spec_diff"] += 1
+                reported = True
+                diffs.append(({"kind": "absolute year/month/day = 0 is ignored instead of applied or rejected",
+                               "input": inp(item, "add"), "delta": item["proj"], "impl": item["r_add"],
+                               "spec": spec}, True))
         if "raw" in s and res[s["rawwf"]] == [1] and not reported:
             raw = res_of_opt(R.dec_opt_dt(res[s["raw"]]))
             cnt["raw_spec_compared"] += 1
@@ -549,8 +570,13 @@ def main():
             "C03_month_shift_exact / C03_clip_never_spills": "|months| <= 11 (normalised), operand valid"},
         "only_differential_tested": ["aware operands (tzinfo carried untouched; the model has no tzinfo)",
                                       "float-valued fields (not generated here; see C16)",
-                                      "deltas outside wf_rd (absolute year/month/day = 0, month outside 1..12, "
-                                      "weekday outside 0..6): model vs implementation only",
+                                      "aware operands: NO theorem (the model has no tzinfo); tzinfo identity + wall fields compared",
+                                      "yearday / nlyearday COMBINED with other keywords: the converted delta is covered "
+                                      "by C03_add_dt_spec, the meaning of the conversion only for the keyword alone",
+                                      "absolute month outside 1..12, weekday outside 0..6 (outside the domain): model vs "
+                                      "implementation only; absolute year/month/day = 0: open finding F-C03-zero-absolute",
+                                      "C03_radd_eq_add / C03_sub_is_add_neg are definitional in the hand model; the content "
+                                      "is in C03_gen_radd_dt / C03_gen_rsub_dt / C03_sub_spec",
                                       "weekday n with |n| > %d: model vs implementation only (the counting spec "
                                       "is linear in |n|)" % SPEC_N_LIMIT],
         "known_findings_hit": verdict.known_hits,
